@@ -50,7 +50,7 @@ func runC10(r *run) {
 		nh = 500
 	}
 	layouts := []string{"2006", "Jan 2006", "2006-01-02 MST"}
-	names := []string{"db", "http", "core", "a", "b"}
+	names := []string{"db", "http", "core", "a", "b", "cpu%", "50%[x", "q%d"}
 	for h := 0; h < nh; h++ {
 		slog.VerifResetGlobals()
 		slog.SetFlags((slog.GetFlags() &^ (slog.Lcaller | slog.Ltime | slog.Lmicroseconds)) | slog.Ldate)
@@ -315,6 +315,13 @@ func runC10(r *run) {
 				}
 				if want, ok := skipChild[[2]int{target, n}]; ok && want != id {
 					r.violate(violation{What: "WithSkip(n) did not return the one child kept for that n", Input: map[string]any{"history": h, "step": step, "parent": target, "n": n}, Expected: want, Actual: id})
+				}
+				for k, v := range skipChild {
+					if k[0] == target && k[1] != n && v == id {
+						r.violate(violation{What: "WithSkip(n) returned the child kept for another skip count: one child per n is not kept",
+							Input:    map[string]any{"history": h, "step": step, "parent": target, "parent_name": x.l.Name(), "n": n, "other_n": k[1]},
+							Expected: "a child of its own", Actual: fmt.Sprintf("child %d (%s)", id, ch.Name())})
+					}
 				}
 				skipChild[[2]int{target, n}] = id
 				if ch.Skip() != n {
